@@ -72,7 +72,7 @@ func (vc *VC) scriptSel(only int, sel func(*Obligation) bool, timeoutMs int, sol
 				break
 			}
 		}
-		if softKind(ob) {
+		if softKind(ob) || vc.noAssume[ob.Index] {
 			// discipline obligations (string qualifiers) are not assumed afterwards: an unproved one
 			// must not support later proofs, so it does not have to poison them either
 			continue
